@@ -71,6 +71,11 @@ type hubCase struct {
 	// ExpectAll: every publish is authorised and matches every subscriber, so a connection still open
 	// and unstalled at the end must have received every update published after it connected.
 	ExpectAll bool `json:"expect_all,omitempty"`
+	// ExactStream: connection 0 subscribes to everything from the start: its stream must be exactly the
+	// sequence of publishes (id, type, LF-normalised data), one event each.
+	ExactStream bool `json:"exact_stream,omitempty"`
+	// AllPublic: every publish is public, authorised and on a topic every '*' subscriber matches.
+	AllPublic bool `json:"all_public,omitempty"`
 	Cfg  hubCfg  `json:"cfg"`
 	Size uint64  `json:"size"`
 	Ops  []hubOp `json:"ops"`
@@ -86,6 +91,25 @@ type liveConn struct {
 	mu     sync.Mutex
 }
 
+// leidCheck: what a reconnecting '*' subscriber asked for, what it was answered, what was stored then.
+type leidCheck struct {
+	label     int
+	req, resp string
+	stored    []string
+	conn      *liveConn
+	n         int // events on the stream right after registration = the replayed ones
+}
+
+func (lt *leidCheck) replayed() []string {
+	evs := sseParse(lt.conn.w.Body())
+	var ids []string
+	for i := 0; i < lt.n && i < len(evs); i++ {
+		ids = append(ids, evs[i].ID)
+	}
+
+	return ids
+}
+
 type hubRun struct {
 	f       *fixture
 	dir     string
@@ -96,6 +120,7 @@ type hubRun struct {
 	panics  []string
 	pmu     sync.Mutex
 	replayed map[int]bool // connections that asked for a replay (their expected count differs)
+	leidChecks []*leidCheck
 	epoch   int  // restarts so far
 	stopped bool // the current hub has been stopped
 }
@@ -357,6 +382,13 @@ func runHubCase(c *h.Ctx, r *h.Report, o *gen.Oracle, cs hubCase, uuidGen *count
 					defer hr.recoverPanic("subscribe handler")
 					hr.f.hub.ServeHTTP(lc.w, req)
 				}()
+				var storedBefore []string
+				if bt, ok := hr.f.tr.(*mercure.BoltTransport); ok && !hr.stopped {
+					func() {
+						defer func() { recover() }()
+						_, storedBefore = mercure.VerifBoltKeys(bt)
+					}()
+				}
 				synctest.Wait()
 				status := lc.w.Status()
 				body := ""
@@ -368,6 +400,15 @@ func runHubCase(c *h.Ctx, r *h.Report, o *gen.Oracle, cs hubCase, uuidGen *count
 				} else {
 					if v, ok := lc.w.Header()["Last-Event-Id"]; ok {
 						leid = h.Hex(v[0])
+						if _, isBolt := hr.f.tr.(*mercure.BoltTransport); isBolt && len(op.Topics) == 1 && op.Topics[0] == "*" && cs.AllPublic {
+							req := op.LeidH
+							if req == "" {
+								req = op.LeidQ
+							}
+							if req != "" {
+								hr.leidChecks = append(hr.leidChecks, &leidCheck{label: op.Label, req: req, resp: v[0], stored: storedBefore, conn: lc, n: len(sseParse(lc.w.Body()))})
+							}
+						}
 					}
 					// learn the subscriber id of this connection: the newest entry of the index not yet known
 					_, subs, _ := hr.f.tr.(mercure.TransportSubscribers).GetSubscribers()
